@@ -231,7 +231,8 @@ class Gen(object):
     t = self.pick_table(tabs, dts)
     if t is None: return None
     rid = self.rng.choice([None, None, None, -1, max(tabs[t][1] or [0]) + 2,
-                           (tabs[t][1] or [1])[0], 0, 1000001])
+                           (tabs[t][1] or [1])[0], 0, 10007])      # a sparse explicit id (a seven-digit one made
+    # every later operation on the table walk million-slot columns: minutes per history)
     return ["AddRecord", t, rid, self.row_values(e, tabs[t][0], self.rng)]
 
   def k_bulk_add(self, e, tabs, dts):
